@@ -11,6 +11,7 @@ import (
 
 	"hop.computer/hop/certs"
 	"hop.computer/hop/keys"
+	"hop.computer/hop/pkg/verifhook"
 )
 
 // TODO(hosono) In the paper, the hidden mode client hello is called "Client Request"
@@ -86,7 +87,7 @@ func (hs *HandshakeState) writeClientRequestHidden(b []byte, serverPublicKey *ke
 	logrus.Debugf("client: ss: %x", dhSs)
 	hs.duplex.Absorb(dhSs)
 
-	now := time.Now().Unix()
+	now := verifhook.Int64("transport.hidden-request.timestamp", time.Now().Unix())
 	timeBytes := make([]byte, 8)
 	binary.BigEndian.PutUint64(timeBytes, uint64(now))
 	hs.duplex.Encrypt(b, timeBytes[:])
